@@ -495,7 +495,8 @@ def get_unconnected_connectors(graph: nx.MultiDiGraph, start_nodes: Set[DSGNode]
                 if is_out_conn else get_in_degree(graph, next_node, edge_type=EdgeType.CONNECTS)
 
             if not base_conn_node.is_valid(0) and conn_deg == 0 and \
-                    not has_conditional_existence(graph, start_nodes, base_conn_node):
+                    not has_conditional_existence(graph, start_nodes, base_conn_node) and \
+                    not _is_valid_without_conditional(graph, start_nodes, base_conn_node, 0):
                 unconnected_connectors.append(connector_node)
                 if stop_at_one:
                     return unconnected_connectors
